@@ -42,6 +42,10 @@ var (
 		{0, 0, 0, 0, 0, 0, 0, 1},
 		[]byte("stablestore-CurrentTerm"),
 		{0xff, 0xff},
+		// long keys that differ only behind a long common prefix, and that prefix itself
+		[]byte("LastVoteCand-of-the-previous-term-a"),
+		[]byte("LastVoteCand-of-the-previous-term-b"),
+		[]byte("LastVoteCand-of-the-"),
 	}
 	bvalsTab = [][]byte{nil,
 		{}, []byte("abc"), []byte("12345678"), bytes.Repeat([]byte("long-value."), 40),
